@@ -152,7 +152,7 @@ class DataProvider:
 
         minimum = 0 if np.isinf(interval_min) else np.abs(axis - interval_min).argmin()
         maximum = (
-            axis.size - 1 if np.isinf(interval_max) else np.abs(axis - interval_max).argmin() + 1
+            axis.size if np.isinf(interval_max) else np.abs(axis - interval_max).argmin() + 1
         )
 
         return slice(minimum, maximum)
